@@ -4,6 +4,8 @@
 #  2. revert, rebuild the library, build+run the demo (must pass)
 # writes <dir>/confirm.log ; exit 0 iff all four facts hold
 D=$(realpath "$1"); T=/tmp/confirm; L="$D/confirm.log"; : > "$L"
+# the scratch tree is created (and built once, with tests) on demand; remove it afterwards: git -C /repo worktree remove --force /tmp/confirm
+[ -d $T ] || { git -C /repo worktree add -q --detach $T HEAD && (cd $T && cmake -G Ninja -B _build -DBUILD_TESTING=ON > /dev/null && cmake --build _build -j12 > /dev/null); }
 LINK="-L/usr/lib/x86_64-linux-gnu -labsl_time -labsl_base -labsl_strings -labsl_int128 -labsl_raw_logging_internal -labsl_throw_delegate -labsl_hash -labsl_city -labsl_low_level_hash -labsl_raw_hash_set -labsl_str_format_internal -labsl_time_zone -lprotobuf -lpthread -latomic"
 demo() { g++ -std=gnu++20 -O1 -fno-access-control -I$T/src -isystem /root/miniconda/include "$D/demo.cpp" $T/_build/libbabylon.a $LINK -o /tmp/confirm_demo >> "$L" 2>&1 || { echo "demo build failed" >> "$L"; return 99; }; timeout 300 /tmp/confirm_demo >> "$L" 2>&1; }
 cd $T && git checkout -q -- src && git apply "$D/patch.diff" || { echo "patch does not apply" >> "$L"; exit 2; }
